@@ -133,9 +133,12 @@ def D8():
     with tempfile.TemporaryDirectory(dir=os.environ.get("VERIF_TMP")) as d:
         p = os.path.join(d, "in.json")
         open(p, "w").write('{"d": {"ax": 1, "b": 2}}')
-        c.parse_args(["-m", "Root", p, "--dkr", "a|b"])
+        c.parse_args(["-m", "Root", p, "--dkr", "a|b", r"^\d+|[a-f]+$"])
     import re
-    assert all(bool(r.match("ax")) == bool(re.fullmatch("a|b", "ax")) for r in c.dict_keys_regex), "ax matches ^a|b$"
+    pats = ["a|b", r"^\d+|[a-f]+$"]
+    for r, pat in zip(c.dict_keys_regex, pats):
+        for key in ("ax", "a", "b", "1st", "12", "abc", "zabc"):
+            assert bool(r.match(key)) == bool(re.fullmatch(pat, key)), f"--dkr {pat!r}: key {key!r} matches {bool(r.match(key))}, the whole-key rule says {bool(re.fullmatch(pat, key))}"
 
 
 def D11():
